@@ -415,17 +415,20 @@ def run(res, tier):
         if n['k'] in ('BinaryOperator', 'CompoundAssignOperator') and n.get('op') in ('+=', '=') and A.strip_casts(n['ch'][0]).get('n') == '_sendMessageIDCounter':
             return n.get('op') == '+=' or any(x.get('n') == '_sendMessageIDCounter' for x in n['ch'][1].walk())
         return False
-    rhs5 = [c for c in w5.walk() if c.is_call() and is_rh(c)]
-    incs5 = [n for n in w5.walk() if is_inc(n)]
-    if not rhs5:
-        raise AnalysisBroken('ID-PER-BUFFER: no RemoveHead() on _currentOutputBuffers in DoOutputImplementation')
-    for (i5, c) in enumerate(rhs5):
-        # the increment directly before the removal (same basic block: nothing can separate the two) is the same thing
-        ok5 = bool(incs5) and (any(P.pos_of(w5, i_) and P.pos_of(w5, i_)[0] == P.pos_of(w5, c)[0] for i_ in incs5) or bool(P.must_follow(w5, c, incs5)[0]))
-        res.ob('ID-PER-BUFFER', w5.where(c), 'a finished send buffer moves the message ID on', ok5, function=w5.q, key='ID-PER-BUFFER|%s|%d' % (w5.q, i5), how='%d increment site(s)' % len(incs5),
-               message='PacketTunnelIOGateway::DoOutputImplementation finishes a send buffer without moving _sendMessageIDCounter on: two consecutive buffers (a packet-mode slave gateway emits several '
-                       'per Message) carry the same ID, the receiver drops the second as a duplicate of the one it just completed, and under loss the head of one and the tail of the next of the '
-                       'same size are glued into a Message that was never sent')
+    n5 = 0
+    for g5 in IP5.scope(fx, w5, '^' + PT + '::'):          # DoOutputImplementation and the private helpers its buffer bookkeeping may have been moved into
+        rhs5 = [c for c in g5.walk() if c.is_call() and is_rh(c)]
+        incs5 = [n for n in g5.walk() if is_inc(n)]
+        for (i5, c) in enumerate(rhs5):
+            n5 += 1
+            # the increment directly before the removal (same basic block: nothing can separate the two) is the same thing
+            ok5 = bool(incs5) and (any(P.pos_of(g5, i_) and P.pos_of(g5, i_)[0] == P.pos_of(g5, c)[0] for i_ in incs5) or bool(P.must_follow(g5, c, incs5)[0]))
+            res.ob('ID-PER-BUFFER', g5.where(c), 'a finished send buffer moves the message ID on', ok5, function=g5.q, key='ID-PER-BUFFER|%s|%d' % (g5.q, i5), how='%d increment site(s)' % len(incs5),
+                   message='PacketTunnelIOGateway::DoOutputImplementation finishes a send buffer without moving _sendMessageIDCounter on: two consecutive buffers (a packet-mode slave gateway emits several '
+                           'per Message) carry the same ID, the receiver drops the second as a duplicate of the one it just completed, and under loss the head of one and the tail of the next of the '
+                           'same size are glued into a Message that was never sent')
+    if n5 < 1:
+        raise AnalysisBroken('ID-PER-BUFFER: no RemoveHead() on _currentOutputBuffers in the scope of DoOutputImplementation')
     res.explanation = ('Static decision of the tunnel\'s acceptance structure: the operands of the reassembly memcpy are identified (state buffer + wire offset, reader pointer, wire chunk size) and each atom of the '
                        'acceptance test is required on a dominating branch edge — same source-keyed state, message id, offset, total size, overflow test, bounds, bytes available, magic — plus the '
                        'source-exclusion disjunction on every path; a Message starts only at offset 0; hand-off only for a complete buffer; writer/reader header order agrees. '
